@@ -123,4 +123,79 @@ theorem run_refines (ops : List Op) (hnode : ∀ op ∈ ops, op.node < (INT_MAX 
       (run ops create).2 = (specRun ops (fun _ => [])).2 :=
   run_refines_from ops create (fun _ => []) inv_create create_refsOf hnode hnf
 
+open Refine.Model
+
+/-- the fold of `ref_adj_min_degree_node` over nodes `0..n-1` for a degree function `D` -/
+def minFold (D : Nat → Int) (acc : Int × Int) (node : Nat) : Int × Int :=
+  if D node > 0 then
+    if acc.2 = EMPTY ∨ D node < acc.1 then (D node, (node : Int)) else acc
+  else acc
+
+/-- nothing seen yet, or the first node of minimal positive degree among `0..n-1` -/
+def MinSpec (D : Nat → Int) (n : Nat) (acc : Int × Int) : Prop :=
+  (acc = (EMPTY, EMPTY) ∧ ∀ w, w < n → ¬ D w > 0) ∨
+  (∃ v, v < n ∧ acc = (D v, (v : Int)) ∧ D v > 0 ∧
+    ∀ w, w < n → D w > 0 → D v ≤ D w ∧ (w < v → D v < D w))
+
+theorem minFold_spec (D : Nat → Int) (n : Nat) :
+    MinSpec D n ((List.range n).foldl (minFold D) (EMPTY, EMPTY)) := by
+  induction n with
+  | zero => exact Or.inl ⟨rfl, fun w hw => by omega⟩
+  | succ n ih =>
+    rw [List.range_succ, List.foldl_append, List.foldl_cons, List.foldl_nil]
+    generalize (List.range n).foldl (minFold D) (EMPTY, EMPTY) = acc at ih
+    unfold minFold
+    rcases ih with ⟨hacc, hz⟩ | ⟨v, hv, hacc, hpos, hmin⟩
+    · by_cases hd : D n > 0
+      · rw [if_pos hd, if_pos (Or.inl (by rw [hacc]))]
+        refine Or.inr ⟨n, by omega, rfl, hd, fun w hw hwp => ?_⟩
+        by_cases hwn : w = n
+        · subst hwn; exact ⟨Int.le_refl _, fun h => by omega⟩
+        · exact absurd hwp (hz w (by omega))
+      · rw [if_neg hd]
+        refine Or.inl ⟨hacc, fun w hw => ?_⟩
+        by_cases hwn : w = n
+        · subst hwn; exact hd
+        · exact hz w (by omega)
+    · have hne : ¬ acc.2 = EMPTY := by rw [hacc]; unfold EMPTY; simp only; omega
+      by_cases hd : D n > 0
+      · rw [if_pos hd]
+        by_cases hlt : D n < acc.1
+        · rw [if_pos (Or.inr hlt)]
+          rw [hacc] at hlt
+          simp only at hlt
+          refine Or.inr ⟨n, by omega, rfl, hd, fun w hw hwp => ?_⟩
+          by_cases hwn : w = n
+          · subst hwn; exact ⟨Int.le_refl _, fun h => by omega⟩
+          · have := (hmin w (by omega) hwp).1
+            exact ⟨by omega, fun _ => by omega⟩
+        · rw [if_neg (by rintro (h | h); exact hne h; exact hlt h)]
+          rw [hacc] at hlt
+          simp only at hlt
+          refine Or.inr ⟨v, by omega, hacc, hpos, fun w hw hwp => ?_⟩
+          by_cases hwn : w = n
+          · subst hwn; exact ⟨by omega, fun h => by omega⟩
+          · exact hmin w (by omega) hwp
+      · rw [if_neg hd]
+        refine Or.inr ⟨v, by omega, hacc, hpos, fun w hw hwp => ?_⟩
+        by_cases hwn : w = n
+        · subst hwn; exact absurd hwp hd
+        · exact hmin w (by omega) hwp
+
+/-- `ref_adj_min_degree_node`: `REF_EMPTY, REF_EMPTY` when every node list is empty, else the FIRST node
+    whose list has the minimal positive length, with that length -/
+theorem minDegreeNode_spec (s : RAdj) :
+    (s.minDegreeNode).1 = Status.ok ∧
+    MinSpec (fun v => (((s.refsOf (v : Int)).length : Nat) : Int)) s.nnode
+      ((s.minDegreeNode).2.1, (s.minDegreeNode).2.2) := by
+  refine ⟨rfl, ?_⟩
+  have h := minFold_spec (fun v => (((s.refsOf (v : Int)).length : Nat) : Int)) s.nnode
+  have e : (s.minDegreeNode).2 = (List.range s.nnode).foldl
+      (minFold (fun v => (((s.refsOf (v : Int)).length : Nat) : Int))) (EMPTY, EMPTY) := by
+    unfold minDegreeNode
+    simp only [degree, refsOf, List.length_map]
+    rfl
+  rw [← e] at h
+  exact h
+
 end Refine.Model.RAdj
